@@ -105,7 +105,7 @@ def strip_ws_outside_strings(s):
     return ''.join(out)
 
 
-def plan(tier, seed):
+def _plan0(tier, seed):
     units = []
     q = tier == 'quick'
     for i in range(32 if q else 320):
@@ -116,6 +116,17 @@ def plan(tier, seed):
         units.append({'kind': 'debug', 'seed': seed * 9001 + 2000 + i, 'n': 250 if q else 900})
     for i in range(16 if q else 160):
         units.append({'kind': 'pretty', 'seed': seed * 9001 + 3000 + i, 'n': 200 if q else 700})
+    return units
+
+
+def plan(tier, seed):
+    """... plus the shared 'faultcompile' units: a compile with a custom-selector table is cut short (warning turned into an error,
+    deep caller stack, asynchronous exception at a random line inside the library, DEBUG output stream that breaks, syntax error in
+    a definition); the next ordinary compile with equal arguments must have the outcome of a fresh parse (vlib/faultcompile.py)."""
+    units = _plan0(tier, seed)
+    fthemes = ['diag', 'text', 'generic']
+    units += [{'kind': 'faultcompile', 'theme': fthemes[i % len(fthemes)], 'seed': seed * 32749 + i, 'n': 150 if tier == 'quick' else 500}
+              for i in range(12 if tier == 'quick' else 120)]
     return units
 
 
